@@ -30,11 +30,11 @@ again in a loop of its own. -/
 theorem trampoline_calls_once :
     4 ≤ trampolineSites.length ∧ ∀ e ∈ trampolineSites, e.inLoop = false := by decide
 
-/-- Sites that drop a callback's error today (class predicate of K17d): the tail thunk of a lazy stream, and the
-generic reducer's `fold`. -/
-def knownErrorDrops : List (String × String) := [("lazy_stream.rs", "next"), ("transducers.rs", "Generic")]
+/-- Sites that may drop a callback's error: none.  (Before /repo 3cbe5bf4 — K17d — the tail thunk of a lazy stream
+(`lazy_stream.rs` `next`) and the generic reducer's `fold` did.) -/
+def knownErrorDrops : List (String × String) := []
 
-/-- Everywhere else in the iterator pipelines of `transduce` the error returned by a Steel callback (e.g. the
+/-- Everywhere in the iterator pipelines of `transduce` the error returned by a Steel callback (e.g. the
 interrupt raised by the poll at its first instruction) is handed on: to the next stage and finally to the reducer,
 which stops. -/
 theorem iteration_errors_propagate :
